@@ -257,7 +257,7 @@ def judgeTick (m : Mon) (now : Int) (ans : Option TickAnswer) (o : Obs) : List S
    then ["c09.no-request-when-due"] else []) ++
   (match ans, o.req with
    | some a, some hits =>
-     judgeSetLimit m { hasReq := true, tokens := hits, accept := a.accept, limit := a.limit, err := a.err, rt := now } o
+     judgeSetLimit m (tickReply a hits now) o
    | _, _ => [])
 
 /-- clauses about the transition made by `op` from the monitor `m` (before) to the observation `o` (after) -/
